@@ -36,7 +36,7 @@ func TokChars(s *gram.Spec) map[string]byte {
 	used := map[byte]bool{'?': true}
 	terms := s.Terminals()
 	for _, t := range terms {
-		if gram.IsLit(t) {
+		if gram.IsLit(t) && gram.LitRune(t) < 128 {
 			m[t] = gram.LitChar(t)
 			used[m[t]] = true
 		}
@@ -351,7 +351,7 @@ func (d *Decorated) tsEpilogue() string {
 	for _, t := range d.sortedToks() {
 		code := t
 		if gram.IsLit(t) {
-			code = fmt.Sprint(int(gram.LitChar(t)))
+			code = fmt.Sprint(int(gram.LitRune(t)))
 		}
 		fmt.Fprintf(&b, "\tcase %d: return %s;\n", d.Chars[t], code)
 	}
